@@ -87,7 +87,7 @@ func c07Struct(args []string) {
 					kind = "stamp"
 				}
 				trace = append(trace, fmt.Sprintf("update %s rx=%d %s", c.id, rx.UnixNano()-base, kind))
-				server.VerifUpdateTXTimestamp(c.id, rx, &arg)
+				server.VerifUpdateTXTimestamp(c.id, rx, tx, &arg)
 			} else {
 				var rxIn int64
 				if c.inOrder {
@@ -283,6 +283,7 @@ type c07In struct {
 	Req    ntp.Packet
 	RX     int64 // handle: rx time in; update: rx time of the exchange
 	TX     int64 // update: tx time in
+	TX0    int64 // update: software tx time the handler put on record for the exchange
 	Clock  int64
 }
 
@@ -333,7 +334,7 @@ func c07Apply(in c07In) c07Out {
 		out.RXOut, out.TXOut = rxt.UnixNano(), txt.UnixNano()
 	case 1:
 		txt := time.Unix(0, in.TX).UTC()
-		server.VerifUpdateTXTimestamp(in.Client, time.Unix(0, in.RX).UTC(), &txt)
+		server.VerifUpdateTXTimestamp(in.Client, time.Unix(0, in.RX).UTC(), time.Unix(0, in.TX0).UTC(), &txt)
 		out.TXOut = txt.UnixNano()
 	case 2:
 		out.State = c07Encode(in.Client)
@@ -378,7 +379,7 @@ var c07Model = porcupine.Model{
 		case 0:
 			return fmt.Sprintf("handle(%s rx=%d origin=%x) -> rx=%d tx=%d resp.tx=%x", in.Client, in.RX, t64u(in.Req.OriginTime), out.RXOut, out.TXOut, t64u(out.Resp.TransmitTime))
 		case 1:
-			return fmt.Sprintf("update(%s rx=%d tx=%d) -> %d", in.Client, in.RX, in.TX, out.TXOut)
+			return fmt.Sprintf("update(%s rx=%d tx0=%d tx=%d) -> %d", in.Client, in.RX, in.TX0, in.TX, out.TXOut)
 		}
 		return fmt.Sprintf("snapshot(%s) -> %x", in.Client, out.State)
 	},
@@ -442,7 +443,7 @@ func c07Conc(args []string) {
 					if lr.IntN(8) == 0 {
 						continue // the listener died before updating: exchange stays pending
 					}
-					up := c07In{Client: c, Kind: 1, RX: out.RXOut, TX: out.TXOut}
+					up := c07In{Client: c, Kind: 1, RX: out.RXOut, TX: out.TXOut, TX0: out.TXOut}
 					if lr.IntN(4) != 0 {
 						up.TX = out.RXOut + 1000 + lr.Int64N(50000)
 					}
